@@ -18,7 +18,7 @@ def _cfg(ht, pl, s0, s1, s2):
         k2 = w.c.add_objects_to_pack([w.content(2, s2)])
         if k2 != [w.key(2, s2)]:
             return False
-        if not inv_ok(w.image(), w, objs) or not views_ok(w.c, w, objs, absent):
+        if not inv_ok(w.image(), w, objs) or not views_ok(w.c, w, objs, absent) or not chunked_ok(w.c, w, objs):
             return False
         w.c.clean_storage()
         img = w.image()
@@ -166,13 +166,67 @@ def _packid(n0, n1, n2, e, target, cached, known, kv):
         w.cleanup()
 
 
-def packid_spec(n0: int, n1: int, n2: int, e: int, target: int, cached: int, known: int, kv: int) -> bool:
+def packid_e0_kn(n0: int, n1: int, n2: int, target: int, kv: int) -> bool:
     """
-    pre: 0 <= n0 <= 1000 and 0 <= n1 <= 1000 and 0 <= n2 <= 1000 and 0 <= e <= 3 and 1 <= target <= 1000
-    pre: -1 <= cached <= 3 and -1 <= known <= 3 and 0 <= kv <= 1000
+    pre: 0 <= n0 <= 1000 and 0 <= n1 <= 1000 and 0 <= n2 <= 1000 and 1 <= target <= 1000
+    pre: 0 <= kv <= 1000
     post: _
     """
-    return _packid(n0, n1, n2, e, target, cached, known, kv)
+    return all(_packid(n0, n1, n2, 0, target, cached, -1, kv) for cached in (-1, 0, 1, 2, 3))  # the cached id is enumerated: it is turned into a path string
+
+
+def packid_e1_kn(n0: int, n1: int, n2: int, target: int, kv: int) -> bool:
+    """
+    pre: 0 <= n0 <= 1000 and 0 <= n1 <= 1000 and 0 <= n2 <= 1000 and 1 <= target <= 1000
+    pre: 0 <= kv <= 1000
+    post: _
+    """
+    return all(_packid(n0, n1, n2, 1, target, cached, -1, kv) for cached in (-1, 0, 1, 2, 3))  # the cached id is enumerated: it is turned into a path string
+
+
+def packid_e1_k0(n0: int, n1: int, n2: int, target: int, kv: int) -> bool:
+    """
+    pre: 0 <= n0 <= 1000 and 0 <= n1 <= 1000 and 0 <= n2 <= 1000 and 1 <= target <= 1000
+    pre: 0 <= kv <= 1000
+    post: _
+    """
+    return all(_packid(n0, n1, n2, 1, target, cached, 0, kv) for cached in (-1, 0, 1, 2, 3))  # the cached id is enumerated: it is turned into a path string
+
+
+def packid_e2_kn(n0: int, n1: int, n2: int, target: int, kv: int) -> bool:
+    """
+    pre: 0 <= n0 <= 1000 and 0 <= n1 <= 1000 and 0 <= n2 <= 1000 and 1 <= target <= 1000
+    pre: 0 <= kv <= 1000
+    post: _
+    """
+    return all(_packid(n0, n1, n2, 2, target, cached, -1, kv) for cached in (-1, 0, 1, 2, 3))  # the cached id is enumerated: it is turned into a path string
+
+
+def packid_e2_k1(n0: int, n1: int, n2: int, target: int, kv: int) -> bool:
+    """
+    pre: 0 <= n0 <= 1000 and 0 <= n1 <= 1000 and 0 <= n2 <= 1000 and 1 <= target <= 1000
+    pre: 0 <= kv <= 1000
+    post: _
+    """
+    return all(_packid(n0, n1, n2, 2, target, cached, 1, kv) for cached in (-1, 0, 1, 2, 3))  # the cached id is enumerated: it is turned into a path string
+
+
+def packid_e3_kn(n0: int, n1: int, n2: int, target: int, kv: int) -> bool:
+    """
+    pre: 0 <= n0 <= 1000 and 0 <= n1 <= 1000 and 0 <= n2 <= 1000 and 1 <= target <= 1000
+    pre: 0 <= kv <= 1000
+    post: _
+    """
+    return all(_packid(n0, n1, n2, 3, target, cached, -1, kv) for cached in (-1, 0, 1, 2, 3))  # the cached id is enumerated: it is turned into a path string
+
+
+def packid_e3_k2(n0: int, n1: int, n2: int, target: int, kv: int) -> bool:
+    """
+    pre: 0 <= n0 <= 1000 and 0 <= n1 <= 1000 and 0 <= n2 <= 1000 and 1 <= target <= 1000
+    pre: 0 <= kv <= 1000
+    post: _
+    """
+    return all(_packid(n0, n1, n2, 3, target, cached, 2, kv) for cached in (-1, 0, 1, 2, 3))  # the cached id is enumerated: it is turned into a path string
 
 
 def _bulk_pack(s0, s1, s2, in_max, chunk_max, clean):
@@ -207,3 +261,33 @@ def bulk_pack(s0: int, s1: int, s2: int, in_max: int, chunk_max: int, clean: boo
     post: _
     """
     return _bulk_pack(s0, s1, s2, in_max, chunk_max, clean)
+
+
+def _paging(page, s0, nh):
+    """the two primary-key paging loops (list_all_objects, the known-keys scan of no_holes) with a page size of 1..3 rows
+    over 4 packed objects and a loose one"""
+    w = make_world(10**9, page=page)
+    try:
+        w.set_pack(0, [('junk', 0, 1), ('obj', 1, 5), ('obj', 2, 6), ('obj', 3, 7), ('obj', 4, 8)])
+        w.put_loose(0, s0)
+        objs = objs_map(w, [(0, s0), (1, 5), (2, 6), (3, 7), (4, 8)])
+        listed = list(w.c.list_all_objects())
+        if sorted(listed) != sorted(objs) or len(listed) != 5:
+            return False
+        before = len(w.image().pack_data(0))
+        keys = w.c.add_streamed_objects_to_pack([w.stream(4, 8), w.stream(1, 5), w.stream(3, 7), w.stream(2, 6)], no_holes=True,
+                                                no_holes_read_twice=nh)
+        if keys != [w.key(4, 8), w.key(1, 5), w.key(3, 7), w.key(2, 6)]:
+            return False
+        img = w.image()
+        return len(img.pack_data(0)) == before and len(img.rows()) == 4 and inv_ok(img, w, objs)
+    finally:
+        w.cleanup()
+
+
+def paging(page: int, s0: int, nh: bool) -> bool:
+    """
+    pre: 1 <= page <= 3 and 1 <= s0 <= 1000
+    post: _
+    """
+    return _paging(page, s0, nh)
